@@ -158,6 +158,25 @@ def shared_temporary(main, obs):
 
 def run_case(case):
     obs = {"counters": {}, "viols": [], "sets": {}}
+    if case["kind"] == "optnames":
+        # options of convert() this harness does not know (a keyword parameter added tomorrow): whatever they do, a source
+        # variable whose spelling equals one of the tool's own identifiers (PID, DISPLAY) must not become that identifier
+        import re
+
+        text = '10 PID=7:DISPLAY=3\n20 HBUFF 1,10:HGET(0,0)-(1,1),1\n30 PRINT PID;DISPLAY\n'
+        obs["key"] = "optnames|%s" % case["option"]
+        conv = harness.convert(text, **{case["option"]: True})
+        if not conv["ok"]:
+            obs["nontrivial"] = False
+            obs["counters"]["refused" if conv["documented"] else "internal_error"] = 1
+            return obs
+        obs["counters"]["identifiers_checked"] = 2
+        obs["counters"]["unknown_options_tried"] = 1
+        hits = [m for m in re.findall(r"(?im)\b(pid|display)\b\s*:=\s*(7|3)(?:\.0)?\b", conv["out"])]
+        if hits:
+            obs["viols"].append({"sig": "C09/collides-with-generated/under-option", "detail": {"option": case["option"], "source": text, "assignments": hits,
+                                                                                           "emitted": "\n".join(conv["out"].split("\n")[-8:])}})
+        return obs
     if case["kind"] == "nextid":
         # loops that are closed out of textual order (NEXT of an outer variable, the 'IF .. THEN NEXT I: GOTO' idiom): legal
         # Color BASIC whose BASIC09 form may well be ill-formed (C07 lists that) - but whatever is emitted, every named NEXT
@@ -457,6 +476,18 @@ def cases(tier, seed):
             k += 1
             for data in (",1,2", "1,2,3"):
                 yield {"kind": "readtmp", "text": "10 DIM A(9)\n20 DATA %s,4\n30 READ %s\n" % (data, shape.replace("@", sub)), "init": k % 2 == 0}
+    try:
+        import inspect
+        from coco.b09 import compiler as _c
+
+        known = {"add_standard_prefix", "add_suffix", "default_width32", "filter_unused_linenum", "initialize_vars", "output_dependencies",
+                 "skip_procedure_headers"}
+        extra_opts = sorted(k for k, prm in inspect.signature(_c.convert).parameters.items()
+                            if k not in known and (prm.default is False or prm.default is True))
+    except Exception:  # noqa: BLE001
+        extra_opts = []
+    for k_ in extra_opts:
+        yield {"kind": "optnames", "option": k_}
     for t in ("10 FOR CO=1 TO 2:FOR J=1 TO 2:NEXT CO\n", "10 FOR K=1 TO 2\n20 FOR I=1 TO 3\n30 IF I=2 THEN NEXT I:GOTO 50\n40 NEXT I\n50 NEXT K\n",
               "10 FOR A=1 TO 2:FOR B=1 TO 2:IF B=1 THEN 30\n20 NEXT B,A\n30 NEXT A\n", "10 FOR XA=1 TO 2:FOR XB=1 TO 2:FOR XC=1 TO 2:NEXT XB:NEXT XA\n",
               "10 FOR I=1 TO 2:FOR J=1 TO 2:NEXT J,I\n", "10 FOR I=1 TO 3\n20 IF I=1 THEN NEXT I\n30 PRINT I\n40 NEXT I\n",
